@@ -33,7 +33,10 @@ def cases(draw, tier):
   mspec = draw(G.model_specs(max_nodes=8 if tier == 'thorough' else 6,
                              min_nodes=2, max_subgraphs=2, ops=CONST_OPS,
                              reuse_const=True, share_buffers=True, dedup=True,
-                             dim_choices=[2, 4], reuse_odds=1, share_odds=1))
+                             dim_choices=[2, 4], reuse_odds=1, share_odds=1,
+                             # incl. degenerate contents (all-zero / constant
+                             # tied weights are what initialisers produce)
+                             const_styles=G.CONST_STYLES_SANE + ['zeros', 'zeros', 'constant', 'lattice']))
   names = engine.op_out_names(mspec)
   groups = _sharer_groups(mspec)
   if groups and draw(st.integers(0, 2)):
